@@ -549,22 +549,23 @@ Section Sem.
       + symmetry. apply sexec1_other. exact Hn'.
   Qed.
 
-  Lemma alias_of_spec st s y : alias_of st = Some (s, y) -> st = SAssign s (Sym y).
+  Lemma alias_of_spec dvs st s y : alias_of dvs st = Some (s, y) -> st = SAssign s (Sym y) /\ ~ In s dvs.
   Proof.
     destruct st as [s' e|a b]; [|discriminate]. destruct e; try discriminate.
-    cbn. intros H. injection H as <- <-. reflexivity.
+    cbn. destruct (memp s' dvs) eqn:E; [discriminate|]. intros H. injection H as <- <-.
+    split; [reflexivity | apply not_memp; exact E].
   Qed.
 
-  Lemma inline_lemma : forall l cur ro rn,
-    inline_guard l cur = true -> InvS cur ro rn ->
-    forall x, ~ In x (akeys (inline_final l cur)) -> sexec rn (inline_walk l cur) x = sexec ro l x.
+  Lemma inline_lemma dvs : forall l cur ro rn,
+    inline_guard dvs l cur = true -> InvS cur ro rn ->
+    forall x, ~ In x (akeys (inline_final dvs l cur)) -> sexec rn (inline_walk dvs l cur) x = sexec ro l x.
   Proof.
     induction l as [|st l IH]; intros cur ro rn Hg HI x Hx.
     - cbn [inline_walk inline_final Model.sexec] in *. rewrite HI. unfold upd_map.
       apply alookup_None_keys in Hx. rewrite Hx. reflexivity.
     - cbn [inline_guard inline_walk inline_final Model.sexec] in *.
-      destruct (alias_of st) as [[s y]|] eqn:Ea.
-      + apply alias_of_spec in Ea. subst st.
+      destruct (alias_of dvs st) as [[s y]|] eqn:Ea.
+      + apply alias_of_spec in Ea. destruct Ea as [-> _].
         apply (IH (aset s (subs_map cur (Sym y)) cur)); [exact Hg| |exact Hx].
         intros z. cbn [Model.sexec1 eval]. unfold upd_map, upd. rewrite alookup_aset.
         destruct (Pos.eqb z s); [|apply HI].
@@ -573,22 +574,22 @@ Section Sem.
         cbn [Model.sexec]. apply (IH cur); [exact Hg| |exact Hx]. apply invS_emit; assumption.
   Qed.
 
-  Lemma inline_preserves_lemma l :
-    g_inline_ok l = true -> forall r x, ~ In x (inlined l) -> sexec r (inline l) x = sexec r l x.
+  Lemma inline_preserves_lemma dvs l :
+    g_inline_ok dvs l = true -> forall r x, ~ In x (inlined dvs l) -> sexec r (inline dvs l) x = sexec r l x.
   Proof.
     intros Hg r x Hx. unfold inline. apply inline_lemma; [exact Hg| |exact Hx]. intros y. reflexivity.
   Qed.
 
   (* the value of an inlined alias is still available: it is the value of what it points to *)
-  Lemma inline_alias_lemma : forall l cur ro rn,
-    inline_guard l cur = true -> InvS cur ro rn ->
-    forall x, sexec ro l x = upd_map (sexec rn (inline_walk l cur)) fi (inline_final l cur) x.
+  Lemma inline_alias_lemma dvs : forall l cur ro rn,
+    inline_guard dvs l cur = true -> InvS cur ro rn ->
+    forall x, sexec ro l x = upd_map (sexec rn (inline_walk dvs l cur)) fi (inline_final dvs l cur) x.
   Proof.
     induction l as [|st l IH]; intros cur ro rn Hg HI x.
     - cbn [inline_walk inline_final Model.sexec]. apply HI.
     - cbn [inline_guard inline_walk inline_final Model.sexec] in *.
-      destruct (alias_of st) as [[s y]|] eqn:Ea.
-      + apply alias_of_spec in Ea. subst st.
+      destruct (alias_of dvs st) as [[s y]|] eqn:Ea.
+      + apply alias_of_spec in Ea. destruct Ea as [-> _].
         apply (IH (aset s (subs_map cur (Sym y)) cur)); [exact Hg|].
         intros z. cbn [Model.sexec1 eval]. unfold upd_map, upd. rewrite alookup_aset.
         destruct (Pos.eqb z s); [|apply HI].
@@ -786,17 +787,17 @@ Section Cleanup.
     destruct H as [y [H _]]. injection H as _ <-. reflexivity.
   Qed.
 
-  Definition g_cleanup (fixed : list (id * Q)) (dists : list dist) (l : list stm) : bool :=
-    g_no_stale_capture l && g_inline_ok (declarative l)
-    && g_consts_ok (zero_map fixed dists) (inline (declarative l)).
+  Definition g_cleanup (dvs : list id) (fixed : list (id * Q)) (dists : list dist) (l : list stm) : bool :=
+    g_no_stale_capture l && g_inline_ok dvs (declarative l)
+    && g_consts_ok (zero_map fixed dists) (inline dvs (declarative l)).
 
-  Lemma cleanup_preserves_lemma fixed dists l :
-    g_cleanup fixed dists l = true ->
+  Lemma cleanup_preserves_lemma dvs fixed dists l :
+    g_cleanup dvs fixed dists l = true ->
     forall r,
       (forall th q, In (th, q) fixed -> r th = Some q) ->
       (forall k, In k (akeys (zero_map fixed dists)) -> r k = Some 0%Q) ->
-      forall x, ~ In x (inlined (declarative l)) ->
-        sexec fi ode r (cleanup_stmts fixed dists l) x = sexec fi ode r l x.
+      forall x, ~ In x (inlined dvs (declarative l)) ->
+        sexec fi ode r (cleanup_stmts dvs fixed dists l) x = sexec fi ode r l x.
   Proof.
     unfold g_cleanup. intros Hg r Hfix Hzero x Hx.
     apply andb_true_iff in Hg. destruct Hg as [Hg Hc]. apply andb_true_iff in Hg. destruct Hg as [Hd Hi].
@@ -1172,4 +1173,36 @@ Lemma declarative_correct_lemma known l :
   forall fi ode r x, sexec fi ode r (declarative l) x = sexec fi ode r l x.
 Proof.
   intros Hv fi ode. apply declarative_preserves_lemma. eapply guard_on_valid. exact Hv.
+Qed.
+
+(* ================= cleanup_model never inlines a dependent variable (since b7852b9) ================= *)
+Lemma akeys_aset {A} k (v : A) m x : In x (akeys (aset k v m)) -> x = k \/ In x (akeys m).
+Proof.
+  unfold aset, akeys. cbn [map fst In]. intros [H|H]; [left; symmetry; exact H|]. right.
+  apply in_map_iff in H. destruct H as [kv [<- H]]. apply In_aremove in H. apply in_map. exact H.
+Qed.
+
+Lemma inline_final_keys dvs : forall l cur x,
+  In x (akeys (inline_final dvs l cur)) -> In x (akeys cur) \/ ~ In x dvs.
+Proof.
+  induction l as [|st l IH]; intros cur x H; cbn [inline_final] in H; [left; exact H|].
+  destruct (alias_of dvs st) as [[s y]|] eqn:Ea; [|apply IH; exact H].
+  apply alias_of_spec in Ea. destruct Ea as [_ Hs].
+  apply IH in H. destruct H as [H|H]; [|right; exact H].
+  apply akeys_aset in H. destruct H as [->|H]; [right; exact Hs | left; exact H].
+Qed.
+
+Lemma inlined_not_dv dvs l x : In x dvs -> ~ In x (inlined dvs l).
+Proof.
+  intros Hd Hin. unfold inlined in Hin. apply inline_final_keys in Hin. destruct Hin as [[]|Hn]. exact (Hn Hd).
+Qed.
+
+Lemma cleanup_preserves_dv_lemma fi ode dvs fixed dists l :
+  g_cleanup dvs fixed dists l = true ->
+  forall r,
+    (forall th q, In (th, q) fixed -> r th = Some q) ->
+    (forall k, In k (akeys (zero_map fixed dists)) -> r k = Some 0%Q) ->
+    forall dv, In dv dvs -> sexec fi ode r (cleanup_stmts dvs fixed dists l) dv = sexec fi ode r l dv.
+Proof.
+  intros Hg r H1 H2 dv Hd. apply cleanup_preserves_lemma; auto. apply inlined_not_dv. exact Hd.
 Qed.
